@@ -63,7 +63,11 @@ func (s *Staking) replaySlashing(ctx *context) ([]Evidence, []Evidence, []*commo
 		return nil, nil, nil, fmt.Errorf("empty evidences of number: %d", header.Number)
 	}
 
-	parentHeight := new(big.Int).Set(ctx.chain.CurrentHeader().Number)
+	// the evidences were confirmed by the builder against the block's PARENT.  That is the importer's current head
+	// only when the block extends its head: for a block of a fork (side chain or re-org import) the current head is
+	// some other block, the round test in processDoubleSignV5 failed and a valid block was rejected as not
+	// reproducing its roots.
+	parentHeight := new(big.Int).Sub(header.Number, big.NewInt(1))
 
 	var verifiedEvidences []Evidence
 	for _, evidence := range evidences {
